@@ -1,5 +1,6 @@
 import LexVerif.Proof.DragonboxNormal
 import LexVerif.Proof.DragonboxTrailing
+import Mathlib.Tactic.FieldSimp
 /-!
 # Proof.DragonboxNormalSpec — `compute_nearest_normal` against the oracle `Spec.shortest`
 
@@ -264,5 +265,41 @@ theorem normal_ok (t : FTy) (bits : Nat) (h0 : 0 < bits) (hfin : bits < (fmtOf t
   by_cases hexc : (t.exponent bits, t.mantissa bits) ∈ excFloats t
   · exact exc_ok t bits hfin hexc
   · exact normal_ok_nonexc t bits h0 hfin hm hexc
+
+/-- what the certificate's fraction is: `a/b = 2^(e-1) · 10^k`, `k = -minus_k` -/
+theorem x_value {t : FTy} {e : Int} {d : ExpData} (F : Facts t e d) :
+    (d.a : ℚ) / d.b = (2 : ℚ) ^ (e - 1) * (10 : ℚ) ^ (-d.minusK) := by
+  have hs := F.hscale.2
+  rw [scalePQ_eq] at hs
+  simp only [] at hs
+  have h10 := tenFrac_Q (d.minusK + t.kappa)
+  have h2 := binFrac_Q (e - 2)
+  obtain ⟨tn_pos, td_pos⟩ := tenFrac_pos (d.minusK + t.kappa)
+  obtain ⟨an_pos, ad_pos⟩ := binFrac_pos (e - 2)
+  generalize (tenFrac (d.minusK + t.kappa)).1 = tn at *
+  generalize (tenFrac (d.minusK + t.kappa)).2 = td at *
+  generalize (binFrac (e - 2)).1 = an at *
+  generalize (binFrac (e - 2)).2 = ad at *
+  have hb : (0 : ℚ) < d.b := by exact_mod_cast F.hcert.1
+  have hk := (kappa_small t).1
+  have hT : ((10 ^ t.kappa.toNat : ℕ) : ℚ) = (10 : ℚ) ^ t.kappa := by
+    have : t.kappa = ((t.kappa.toNat : ℕ) : ℤ) := by omega
+    conv => rhs; rw [this]
+    rw [zpow_natCast]; push_cast; rfl
+  have hsQ : (tn : ℚ) * ad * d.a = 2 * (10 : ℚ) ^ t.kappa * (an * td) * d.b := by
+    rw [← hT]; exact_mod_cast hs
+  have tnQ : (0 : ℚ) < tn := by exact_mod_cast tn_pos
+  have tdQ : (0 : ℚ) < td := by exact_mod_cast td_pos
+  have anQ : (0 : ℚ) < an := by exact_mod_cast an_pos
+  have adQ : (0 : ℚ) < ad := by exact_mod_cast ad_pos
+  have e1 : (d.a : ℚ) / d.b = 2 * (10 : ℚ) ^ t.kappa * ((an : ℚ) / ad) / ((tn : ℚ) / td) := by
+    field_simp
+    linear_combination hsQ
+  rw [e1, h2, h10]
+  have z10 : (10 : ℚ) ≠ 0 := by norm_num
+  have z2 : (2 : ℚ) ≠ 0 := by norm_num
+  rw [show e - 1 = (e - 2) + 1 by ring, zpow_add₀ z2, zpow_one,
+    show -d.minusK = t.kappa - (d.minusK + t.kappa) by ring, zpow_sub₀ z10]
+  field_simp
 
 end LexVerif.Proof.DragonboxNormalSpec
